@@ -86,6 +86,25 @@ def run(ck):
     mf = F.field(LG, "m_mutex")
     ck.notes.append("Logger::m_mutex has type %s" % mf["type"])
 
+    # ---- O7 exactly once on the entry path: no path drops the message or runs the pipeline twice
+    ck.rule("C02-O7", "exactly once: with an active logger messageHandler calls processMessage on every path, and processMessage runs the pipeline exactly once on every path (no give-up branch: busy flag, try-lock, timeout)")
+    gm = Graph(mh)
+    gl_decls = [v["decl"] for n in mh.find(lambda n: n.get("k") == "decl") for v in n.get("vars", []) if isinstance(v.get("init"), dict) and any((x.get("name") or "").endswith("g_activeLogger") for x in walk(v["init"]))]
+    isl_ = lambda n: n.get("k") == "ref" and n.get("decl") in gl_decls
+    keepl = gm.projector(atom_eq(isl_, True))
+    pmcalls = [n for n in entry_calls if n.get("fn") == pm.id]
+    if pmcalls:
+        ps_ = set(gm.sites_of_nodes(pmcalls))
+        ok = gm.must_pass(ps_, keep=keepl) and not any(gm.in_cycle(x) for x in ps_)
+        ck.ob("C02-O7", sitestr(mh, pmcalls[0]), ok, "with an active logger every message reaches processMessage exactly once" if ok else
+              "messageHandler can return without calling processMessage although a logger is active (a guard other than the null test): the message is delivered to no sink", key="Logger::messageHandler|message-dropped")
+    gp = Graph(pm)
+    runs_ = [n for n in pcalls if name_is(n.get("callee"), "process")]
+    if runs_:
+        rs_ = set(gp.sites_of_nodes(runs_))
+        ok = gp.must_pass(rs_) and not any(gp.in_cycle(x) for x in rs_) and len(runs_) == 1
+        ck.ob("C02-O7", sitestr(pm, runs_[0]), ok, "processMessage runs the pipeline exactly once on every path" if ok else
+              "processMessage has a path that does not run the pipeline (or runs it more than once): %d run site(s)" % len(runs_), key="Logger::processMessage|message-dropped")
     # ---- O2
     insts = [f for f in F.fn_all(OT + "::process") if f.d.get("inst")]
     ck.require(len(insts) >= 2, "expected OwnThreadHandler<Pipeline> and <SimplePipeline> instantiations, found %d" % len(insts))
